@@ -33,7 +33,10 @@ impl Slot {
     pub fn fresh() -> Self {
         SLOT_TABLE.with_borrow_mut(|tab| {
             let old_val = tab.fresh_idx;
-            tab.fresh_idx += 4;
+            // never wrap around: a wrapped counter would hand out `$f0` again.
+            tab.fresh_idx = old_val
+                .checked_add(4)
+                .expect("Slot::fresh: fresh slot counter exhausted");
             #[cfg(slotted_egraphs_verif)]
             {
                 tab.fresh_idx = tab.fresh_idx.saturating_add(4 * crate::verif::fresh_stride());
@@ -49,16 +52,17 @@ impl Slot {
 
     /// Generates a named slot like `$xyz`
     pub fn named(s: &str) -> Slot {
-        if let Ok(x) = s.parse::<u32>() {
+        if let Some(x) = parse_canonical_number(s) {
             return Slot(x * 4); // numeric
         }
 
         SLOT_TABLE.with_borrow_mut(|tab| {
             if s.starts_with("f") {
-                if let Ok(x) = s[1..].parse::<u32>() {
+                if let Some(x) = parse_canonical_number(&s[1..]) {
                     let out = x * 4 + 1;
                     if tab.fresh_idx <= out {
-                        tab.fresh_idx = out + 4;
+                        // saturating: after `$f1073741823` no further fresh slot exists.
+                        tab.fresh_idx = out.saturating_add(4);
                     }
                     return Slot(out); // fresh
                 }
@@ -75,6 +79,24 @@ impl Slot {
             Slot(i) // new named
         })
     }
+}
+
+// Only the canonical decimal spelling of a number (as printed by `Display`) that fits the slot
+// encoding `x * 4 + k` is a numeric (or fresh) slot name; "05", "+5" or too large numbers are
+// ordinary names. Otherwise distinct names would denote the same slot, or the encoding would
+// overflow.
+fn parse_canonical_number(s: &str) -> Option<u32> {
+    if s.is_empty() || !s.bytes().all(|b| b.is_ascii_digit()) {
+        return None;
+    }
+    if s.len() > 1 && s.starts_with('0') {
+        return None;
+    }
+    let x = s.parse::<u32>().ok()?;
+    if x >= (1 << 30) {
+        return None;
+    }
+    Some(x)
 }
 
 impl Display for Slot {
